@@ -49,7 +49,7 @@ fn kinds(f: &pipeline::Failure) -> Vec<String> {
 
 fn cfg_for(emit_runtime: bool) -> Config {
     let mut cfg = pipeline::default_config();
-    for s in ["Version", "Date", "Stamp"] {
+    for s in ["Version", "Date", "Stamp", "all", "specifiedBy"] {
         cfg.generate.r#type.scalar_types.insert(s.into(), ScalarTypeConfig::Single("string".into()));
     }
     cfg.generate.emit_schema_runtime = emit_runtime;
